@@ -5,6 +5,7 @@ use crate::random::ResponseError;
 use apollo_compiler::executable::Field;
 use apollo_compiler::executable::Selection;
 use apollo_compiler::executable::SelectionSet;
+use apollo_compiler::executable::Type;
 use apollo_compiler::schema::ExtendedType;
 use apollo_compiler::validation::Valid;
 use apollo_compiler::ExecutableDocument;
@@ -313,42 +314,42 @@ impl<'a, 'doc, 'schema, R: RandomProvider> ResponseBuilder<'a, 'doc, 'schema, R>
         fields: &[Node<Field>],
         meta_field: &Node<Field>,
     ) -> Result<Value, ResponseError> {
-        let has_selection_set = !meta_field.selection_set.is_empty();
-        let is_list = meta_field.ty().is_list();
-
-        if has_selection_set {
-            // Merge sub-selections from all occurrences of this field
-            let mut merged_selections = Vec::new();
-            for field in fields {
-                merged_selections.extend_from_slice(&field.selection_set.selections);
-            }
-            let full_selection_set = SelectionSet {
-                ty: meta_field.selection_set.ty.clone(),
-                selections: merged_selections,
-            };
-
-            if is_list {
-                self.repeated_selection_set(&full_selection_set)
-            } else {
-                self.selection_set(&full_selection_set)
-            }
-        } else if is_list {
-            self.repeated_leaf_field(meta_field.ty().inner_named_type())
-        } else {
-            self.leaf_field(meta_field.ty().inner_named_type())
-        }
+        self.generate_value_of_type(fields, meta_field, meta_field.ty())
     }
 
-    fn repeated_selection_set(
+    /// Generate a value of type `ty` for a field group: one level of JSON array per level of
+    /// list in `ty` (so `[[Int!]]` is a list of lists), then an object or a leaf.
+    fn generate_value_of_type(
         &mut self,
-        selection_set: &SelectionSet,
+        fields: &[Node<Field>],
+        meta_field: &Node<Field>,
+        ty: &Type,
     ) -> Result<Value, ResponseError> {
-        let num_values = self.arbitrary_len()?;
-        let mut values = Vec::with_capacity(num_values);
-        for _ in 0..num_values {
-            values.push(self.selection_set(selection_set)?);
+        match ty {
+            Type::List(item_ty) | Type::NonNullList(item_ty) => {
+                let num_values = self.arbitrary_len()?;
+                let mut values = Vec::with_capacity(num_values);
+                for _ in 0..num_values {
+                    values.push(self.generate_value_of_type(fields, meta_field, item_ty)?);
+                }
+                Ok(Value::Array(values))
+            }
+            Type::Named(type_name) | Type::NonNullNamed(type_name) => {
+                if meta_field.selection_set.is_empty() {
+                    return self.leaf_field(type_name);
+                }
+                // Merge sub-selections from all occurrences of this field
+                let mut merged_selections = Vec::new();
+                for field in fields {
+                    merged_selections.extend_from_slice(&field.selection_set.selections);
+                }
+                let full_selection_set = SelectionSet {
+                    ty: meta_field.selection_set.ty.clone(),
+                    selections: merged_selections,
+                };
+                self.selection_set(&full_selection_set)
+            }
         }
-        Ok(Value::Array(values))
     }
 
     /// Like [`selection_set`][Self::selection_set], but with a fixed concrete type and an
@@ -461,15 +462,6 @@ impl<'a, 'doc, 'schema, R: RandomProvider> ResponseBuilder<'a, 'doc, 'schema, R>
             ExtendedType::Scalar(scalar) => self.generators.generate_scalar(&scalar.name, self.rng),
             _ => unreachable!("A field with an empty selection set must be a scalar or enum type"),
         }
-    }
-
-    fn repeated_leaf_field(&mut self, type_name: &Name) -> Result<Value, ResponseError> {
-        let num_values = self.arbitrary_len()?;
-        let mut values = Vec::with_capacity(num_values);
-        for _ in 0..num_values {
-            values.push(self.leaf_field(type_name)?);
-        }
-        Ok(Value::Array(values))
     }
 
     fn arbitrary_len(&mut self) -> Result<usize, ResponseError> {
